@@ -1,4 +1,5 @@
 mod engine;
+mod build;
 mod gen;
 mod oracle;
 mod props;
